@@ -10,12 +10,12 @@
 //
 // and compares the filtered result with the unfiltered result of the same call:
 //
-//	1. the filtered result is the unfiltered one minus whole lines, in the same order;
-//	2. a deleted line lies within 72 pt of the top/bottom page edge AND (its digit-normalized text occurs at that
-//	   position on another page OR it is a page-number pattern);
-//	3. body-band lines and documents without anything removable come back unchanged;
-//	4. a line repeated at the same marginal position on every page, and running page numbers, are gone from every
-//	   requested page (documents of >= 2 pages; the mode must cover the side).
+//  1. the filtered result is the unfiltered one minus whole lines, in the same order;
+//  2. a deleted line lies within 72 pt of the top/bottom page edge AND (its digit-normalized text occurs at that
+//     position on another page OR it is a page-number pattern);
+//  3. body-band lines and documents without anything removable come back unchanged;
+//  4. a line repeated at the same marginal position on every page, and running page numbers, are gone from every
+//     requested page (documents of >= 2 pages; the mode must cover the side).
 //
 // model.go holds the generator and the reference predicate (written from the statement and the documented
 // defaults, not from the code under test).
@@ -83,6 +83,15 @@ func inQuick(P int, body bodyKind, size string, sub []int, mode, api string) boo
 	return true
 }
 
+// inQuickPartial prunes the "running line absent from some pages" sub-space for the quick tier: every page subset of
+// every P in 2..6, but two page-number settings, the plain body, and the single-side modes through Text only.
+func inQuickPartial(pn pnKind, body bodyKind, mode, api string) bool {
+	if body.name != "unique" || pn.pos == "top" {
+		return false
+	}
+	return mode == "both" || api == "Text"
+}
+
 // inExtended: part (B) runs the digit-bearing / bottom running-line header kinds on Letter pages with the body variants
 // that could interact with a misclassified running line (plain, numeric, numeric 80 pt from either edge); quick
 // additionally keeps only three page-number settings.
@@ -111,12 +120,32 @@ func fragOf(l lline) text.TextFragment {
 	return text.TextFragment{Text: l.text, X: l.x, Y: l.y, Width: 5.5 * float64(len(l.text)), Height: l.h, FontSize: l.h, FontName: l.id}
 }
 
+// inSpace says whether (P, hdr, pn, body, size) belongs to the enumerated product: the general kinds run for
+// P in 1..4; the "running line absent from some pages" kinds form their own sub-space with P in 2..6.
+func inSpace(P int, hdr string, pn pnKind, body bodyKind, size string) bool {
+	if !partialHdr(hdr) {
+		return P <= 4
+	}
+	if P < 2 || size != "letter" {
+		return false
+	}
+	if body.name != "unique" && body.name != "numeric" {
+		return false
+	}
+	return pn.style == "none" || pn.style == "n" && pn.pos == "bottom" || pn.style == "Page_n" && pn.pos == "top"
+}
+
+const maxP = 6
+
 func partA(e *harness.Env) {
-	for P := 1; P <= 4; P++ {
+	for P := 1; P <= maxP; P++ {
 		for _, hdr := range hdrKinds {
 			for _, pn := range pnKinds(e.Thorough()) {
 				for _, body := range bodyKinds() {
 					for _, size := range []string{"letter", "a4", "mixed"} {
+						if !inSpace(P, hdr, pn, body, size) {
+							continue
+						}
 						for _, order := range []string{"top-down", "bottom-up"} {
 							desc := harness.D("part", "frag", "P", P, "hdr", hdr, "pn", pn.style, "pnpos", pn.pos, "body", body.name, "off", body.off, "size", size, "order", order)
 							if !e.Own(desc) {
@@ -142,6 +171,34 @@ func partA(e *harness.Env) {
 	}
 }
 
+// clonePages deep-copies the page data (fragments are values).
+func clonePages(pages []layout.PageFragments) []layout.PageFragments {
+	o := make([]layout.PageFragments, len(pages))
+	for i, p := range pages {
+		o[i] = p
+		o[i].Fragments = append([]text.TextFragment{}, p.Fragments...)
+	}
+	return o
+}
+
+func samePages(a, b []layout.PageFragments) (bool, string) {
+	for i := range a {
+		if len(a[i].Fragments) != len(b[i].Fragments) {
+			return false, fmt.Sprintf("page %d: %d fragments, before the call %d\nnow    %s\nbefore %s", i+1, len(a[i].Fragments), len(b[i].Fragments), fragList(a[i].Fragments), fragList(b[i].Fragments))
+		}
+		for j := range a[i].Fragments {
+			if a[i].Fragments[j] != b[i].Fragments[j] {
+				return false, fmt.Sprintf("page %d fragment %d: %q, before the call %q\nnow    %s\nbefore %s", i+1, j, a[i].Fragments[j].Text, b[i].Fragments[j].Text, fragList(a[i].Fragments), fragList(b[i].Fragments))
+			}
+		}
+	}
+	return true, ""
+}
+
+// checkFragments drives the detector directly on shared page data, the way a caller holding the fragments of a
+// document does: (1) Detect + FilterFragments on every page, (2) the same again on the same data, (3) the documented
+// per-page loop Analyzer.AnalyzeWithHeaderFooterFiltering(pages, i). The caller's fragment slices are inputs: no call
+// may change them ("the result is the unfiltered result minus some fragments" - the unfiltered input stays what it was).
 func checkFragments(d *ldoc, order string) (sig, detail, outcome string) {
 	pages := make([]layout.PageFragments, d.P)
 	byID := map[string]lline{}
@@ -158,7 +215,7 @@ func checkFragments(d *ldoc, order string) (sig, detail, outcome string) {
 		}
 		pages[p] = pf
 	}
-	res := layout.NewHeaderFooterDetector().Detect(pages)
+	orig := clonePages(pages)
 	removed, keptMay := map[string]bool{}, map[string]bool{}
 	anyMay := false
 	for _, l := range d.all() {
@@ -175,43 +232,71 @@ func checkFragments(d *ldoc, order string) (sig, detail, outcome string) {
 		bad[stem][class] = true
 		notes = append(notes, stem+": "+note)
 	}
-	for p := 0; p < d.P; p++ {
-		in := append([]text.TextFragment{}, pages[p].Fragments...)
-		out := res.FilterFragments(p, pages[p].Fragments, d.PHs[p])
-		// 1. subsequence of unmodified fragments
-		j := 0
-		kept := map[string]bool{}
-		for _, f := range out {
-			for j < len(in) && in[j] != f {
+	for round := 1; round <= 2; round++ {
+		res := layout.NewHeaderFooterDetector().Detect(pages)
+		if ok, why := samePages(pages, orig); !ok {
+			return "input-mutated", fmt.Sprintf("round %d: Detect changed the caller's fragments: %s", round, why), ""
+		}
+		for p := 0; p < d.P; p++ {
+			in := orig[p].Fragments
+			out := res.FilterFragments(p, pages[p].Fragments, d.PHs[p])
+			outCopy := append([]text.TextFragment{}, out...)
+			if ok, why := samePages(pages, orig); !ok {
+				return "input-mutated", fmt.Sprintf("round %d: FilterFragments(page %d) changed the caller's fragments: %s", round, p+1, why), ""
+			}
+			// 1. subsequence of unmodified fragments
+			j := 0
+			kept := map[string]bool{}
+			for _, f := range outCopy {
+				for j < len(in) && in[j] != f {
+					j++
+				}
+				if j == len(in) {
+					return "not-subsequence", fmt.Sprintf("round %d page %d: filtered fragment %q (%s) is not the next unmodified input fragment\ninput  %s\noutput %s", round, p+1, f.Text, f.FontName, fragList(in), fragList(out)), ""
+				}
+				kept[f.FontName] = true
 				j++
 			}
-			if j == len(in) {
-				return "not-subsequence", fmt.Sprintf("page %d: filtered fragment %q (%s) is not the next unmodified input fragment\ninput  %s\noutput %s", p+1, f.Text, f.FontName, fragList(in), fragList(out)), ""
-			}
-			kept[f.FontName] = true
-			j++
-		}
-		for _, f := range in {
-			l := byID[f.FontName]
-			may, must := d.mayDelete(l), d.mustDelete(l, "both")
-			switch {
-			case !kept[l.id] && !may:
-				stem := d.whyNot(l)
-				if !anyMay {
-					stem = "changed-without-repetition"
+			for _, f := range in {
+				l := byID[f.FontName]
+				may, must := d.mayDelete(l), d.mustDelete(l, "both")
+				switch {
+				case !kept[l.id] && !may:
+					stem := d.whyNot(l)
+					if !anyMay {
+						stem = "changed-without-repetition"
+					}
+					flag(stem, l.class, fmt.Sprintf("round %d page %d: %q at y=%.1f (band side %q, repeated on another page=%v, page-number pattern=%v) was deleted", round, p+1, l.text, l.y, d.side(l), d.repeated(l), isPagePattern(l.text)))
+				case kept[l.id] && must:
+					flag("kept-"+mustName(l.class), l.class, fmt.Sprintf("round %d page %d: %q at y=%.1f is still present", round, p+1, l.text, l.y))
+				case !kept[l.id]:
+					removed[l.class] = true
+				case may:
+					keptMay[l.class] = true
 				}
-				flag(stem, l.class, fmt.Sprintf("page %d: %q at y=%.0f (band side %q, repeated=%v, page-number pattern=%v) was deleted", p+1, l.text, l.y, d.side(l), d.repeated(l), isPagePattern(l.text)))
-			case kept[l.id] && must:
-				flag("kept-"+mustName(l.class), l.class, fmt.Sprintf("page %d: %q at y=%.0f is still present", p+1, l.text, l.y))
-			case !kept[l.id]:
-				removed[l.class] = true
-			case may:
-				keptMay[l.class] = true
 			}
+		}
+		if len(bad) > 0 {
+			return badSig(bad), strings.Join(notes, "\n") + "\ndetected: " + res.Summary(), ""
 		}
 	}
-	if len(bad) > 0 {
-		return badSig(bad), strings.Join(notes, "\n") + "\ndetected: " + res.Summary(), ""
+	// 3. the documented per-page loop on the same shared data
+	for p := 0; p < d.P; p++ {
+		base := layout.NewAnalyzer().Analyze(append([]text.TextFragment{}, orig[p].Fragments...), d.PW, d.PHs[p])
+		got := layout.NewAnalyzer().AnalyzeWithHeaderFooterFiltering(pages, p)
+		if ok, why := samePages(pages, orig); !ok {
+			return "input-mutated", fmt.Sprintf("AnalyzeWithHeaderFooterFiltering(pages, %d) changed the caller's fragments: %s", p, why), ""
+		}
+		var U, F []string
+		for _, el := range base.Elements {
+			U = append(U, strings.Fields(el.Text)...)
+		}
+		for _, el := range got.Elements {
+			F = append(F, strings.Fields(el.Text)...)
+		}
+		if sg, dt, _ := judgeTokens(d, "both", map[int]bool{p: true}, U, F, nil); sg != "" {
+			return "per-page-loop:" + sg, fmt.Sprintf("AnalyzeWithHeaderFooterFiltering(pages, %d): %s", p, dt), ""
+		}
 	}
 	return "", "", fmt.Sprintf("removed=%s:removable-kept=%s", joinSorted(removed), joinSorted(keptMay))
 }
@@ -229,7 +314,7 @@ func mustName(class string) string {
 // badSig builds one stable signature from the violated clauses: the first stem in a fixed priority order plus the
 // classes of the offending lines (classes are a closed alphabet, not varying data).
 func badSig(bad map[string]map[string]bool) string {
-	for _, stem := range []string{"changed-without-repetition", "deleted-outside-band", "deleted-unrepeated-marginal", "deleted-unrepeated-line", "kept-running-header", "kept-running-footer", "kept-page-number"} {
+	for _, stem := range []string{"changed-without-repetition", "deleted-outside-band", "deleted-unrepeated-marginal", "deleted-unrepeated-line", "kept-running-header", "kept-running-footer", "kept-page-number", "selection-dependent"} {
 		if c, ok := bad[stem]; ok {
 			return stem + ":" + joinSorted(c)
 		}
@@ -387,11 +472,14 @@ func partB(e *harness.Env) {
 	dir := harness.Scratch()
 	defer os.RemoveAll(dir)
 	path := filepath.Join(dir, "doc.pdf")
-	for P := 1; P <= 4; P++ {
+	for P := 1; P <= maxP; P++ {
 		for _, hdr := range hdrKinds {
 			for _, pn := range pnKinds(e.Thorough()) {
 				for _, body := range bodyKinds() {
 					for _, size := range []string{"letter", "mixed"} {
+						if !inSpace(P, hdr, pn, body, size) {
+							continue
+						}
 						var d *ldoc
 						var data []byte
 						written := false
@@ -401,7 +489,10 @@ func partB(e *harness.Env) {
 									if extendedHdr(hdr) && !inExtended(e.Thorough(), pn, body, size) {
 										continue
 									}
-									if !e.Thorough() && !inQuick(P, body, size, sub, mode, api.name) {
+									if !e.Thorough() && !partialHdr(hdr) && !inQuick(P, body, size, sub, mode, api.name) {
+										continue
+									}
+									if !e.Thorough() && partialHdr(hdr) && !inQuickPartial(pn, body, mode, api.name) {
 										continue
 									}
 									desc := harness.D("part", "pdf", "P", P, "hdr", hdr, "pn", pn.style, "pnpos", pn.pos, "body", body.name, "off", body.off, "size", size, "pages", subsetName(sub), "mode", mode, "api", api.name)
@@ -535,6 +626,30 @@ func checkPDF(d *ldoc, path string, sub []int, mode string, api apiFn) (sig, det
 	for _, p := range sub {
 		req[p-1] = true
 	}
+	var ref func() ([]string, []string, bool)
+	if len(req) < d.P {
+		// reference for the selection-independence clause: the same call on all pages
+		ref = func() ([]string, []string, bool) {
+			ua, err := api.run(tabula.Open(path))
+			if err != nil {
+				return nil, nil, false
+			}
+			fa, err := api.run(withMode(tabula.Open(path), mode))
+			if err != nil {
+				return nil, nil, false
+			}
+			return toks(ua), toks(fa), true
+		}
+	}
+	return judgeTokens(d, mode, req, U, F, ref)
+}
+
+// judgeTokens compares the token sequence F of a filtered result with the token sequence U of the unfiltered result
+// of the same call on the pages req. ref (optional) yields the unfiltered / filtered token sequences of the same call
+// on ALL pages; it is used for the selection-independence clause: whether a removable line is removed is a property
+// of the document ("repeats across pages" of the document), so a line that the all-pages result removes everywhere
+// (keeps everywhere) must be removed (kept) in every partial selection as well.
+func judgeTokens(d *ldoc, mode string, req map[int]bool, U, F []string, ref func() ([]string, []string, bool)) (sig, detail, outcome string) {
 	exp := d.expectations(mode, req)
 	var keys [][]string
 	seen := map[string]bool{}
@@ -583,6 +698,43 @@ func checkPDF(d *ldoc, path string, sub []int, mode string, api apiFn) (sig, det
 	var notes []string
 	removed, keptMay := map[string]bool{}, map[string]bool{}
 	partial, otherSide := false, false
+	// reference counts of the all-pages result (lazily: only when some requested line is removable but not required)
+	var refU, refF map[string]int
+	var refExp map[string]*expect
+	refState := 0 // 0 not tried, 1 usable, -1 not usable
+	loadRef := func() bool {
+		if refState != 0 || ref == nil {
+			return refState == 1
+		}
+		refState = -1
+		ua, fa, ok := ref()
+		if !ok {
+			return false
+		}
+		refExp = d.expectations(mode, nil)
+		var allKeys [][]string
+		seenAll := map[string]bool{}
+		for _, l := range d.all() {
+			if !seenAll[l.text] {
+				seenAll[l.text] = true
+				allKeys = append(allKeys, strings.Fields(l.text))
+			}
+		}
+		ul, ok1, _ := segment(ua, allKeys)
+		fl, ok2, _ := segment(fa, allKeys)
+		if !ok1 || !ok2 {
+			return false
+		}
+		refU, refF = map[string]int{}, map[string]int{}
+		for _, l := range ul {
+			refU[l]++
+		}
+		for _, l := range fl {
+			refF[l]++
+		}
+		refState = 1
+		return true
+	}
 	for _, key := range keys {
 		t := strings.Join(key, " ")
 		x := exp[t]
@@ -626,6 +778,19 @@ func checkPDF(d *ldoc, path string, sub []int, mode string, api apiFn) (sig, det
 		}
 		if del < must {
 			flag("kept-"+mustName(x.mustClass), x.mustClass, fmt.Sprintf("line %q: %d of %d instances deleted, %d have to go", t, del, cU[t], must))
+		}
+		// selection independence: every instance of this text is removable but none is required; the all-pages
+		// result treats all its instances alike -> the partial selection has to treat them the same way
+		if ref != nil && cU[t] == x.n && x.may == x.n && x.must == 0 && loadRef() {
+			if ra := refExp[t]; ra != nil && refU[t] == ra.n && ra.n > 0 {
+				delAll := refU[t] - refF[t]
+				switch {
+				case delAll == 0 && del > 0:
+					flag("selection-dependent", x.class, fmt.Sprintf("line %q is kept on every page when all pages are requested, but %d of %d instances are deleted for this selection", t, del, cU[t]))
+				case delAll == refU[t] && del < cU[t]:
+					flag("selection-dependent", x.class, fmt.Sprintf("line %q is removed from every page when all pages are requested, but only %d of %d instances are deleted for this selection", t, del, cU[t]))
+				}
+			}
 		}
 		x = &expect{n: x.n, may: may, must: must, why: x.why, class: x.class, mustClass: x.mustClass, mayClass: x.mayClass, maySide: x.maySide}
 		if del > 0 && del <= x.may {
